@@ -143,4 +143,119 @@ theorem processing_reach {P : Prog} {c0 c : Cfg} (h0 : Started c0) (h : Reach P 
   obtain ⟨_, _, e3, _, e5, _⟩ := started_A h0
   simp [e3, e5]
 
+/-! ### callbacks, sources and requesters -/
+
+theorem singleton_getElem? {α} {a h : α} {k : Nat} (hk : [a][k]? = some h) : h = a := by
+  rw [List.getElem?_singleton] at hk
+  split at hk <;> simp_all
+
+structure CbInv (c : Cfg) : Prop where
+  /-- a handler whose one-shot callback is screen `scr`'s `process_input` was created by that screen -/
+  cb_source : ∀ (n : Nat) (h : IHandler), c.A.ihs[n]? = some h → ∀ scr, h.cb = some scr → h.source = .scr scr
+  /-- a request's requester is the source of its handler -/
+  req_source : ∀ R ∈ c.A.reqs, ∃ h, c.A.ihs[R.ih]? = some h ∧ R.requester = h.source
+  /-- no value without a received result -/
+  unreceived : ∀ (n : Nat) (h : IHandler), c.A.ihs[n]? = some h → h.received = false → h.value = none
+
+theorem cbInv_trans {c c' : Cfg} (hi : CbInv c) (ht : InpTrans c c') : CbInv c' := by
+  obtain ⟨h1, h2, h3⟩ := hi
+  cases ht with
+  | frame hf => exact ⟨by rwa [hf.ihs], by rwa [hf.ihs, hf.reqs], by rwa [hf.ihs]⟩
+  | screenReq scr args sk text hr _ | blockingReq scr sk text hr _ =>
+    obtain ⟨e1, e2, _⟩ := hr
+    refine ⟨?_, ?_, ?_⟩
+    · intro n h hn scr' hcb
+      rw [e1, List.getElem?_append] at hn
+      split at hn
+      · exact h1 n h hn scr' hcb
+      · have := singleton_getElem? hn
+        subst this
+        simp_all [freshIH]
+    · intro R hR
+      rw [e2] at hR
+      simp only [List.mem_append, List.mem_singleton] at hR
+      rcases hR with hR | rfl
+      · obtain ⟨h, hh, hs⟩ := h2 R hR
+        refine ⟨h, ?_, hs⟩
+        rw [e1, List.getElem?_append_left (by
+          have := (List.getElem?_eq_some_iff.mp hh).1; exact this)]
+        exact hh
+      · exact ⟨_, by rw [e1]; simp, rfl⟩
+    · intro n h hn hrcv
+      rw [e1, List.getElem?_append] at hn
+      split at hn
+      · exact h3 n h hn hrcv
+      · have := singleton_getElem? hn
+        subst this
+        rfl
+  | handoff s rest _ _ eA _ _ =>
+    exact ⟨by simpa [eA] using h1, by simpa [eA] using h2, by simpa [eA] using h3⟩
+  | ready n s rest f _ _ hf eA _ _ =>
+    have hsrc : ∀ h, (f h).source = h.source := by
+      rcases hf with ⟨_, rfl⟩ | ⟨_, rfl⟩ <;> intro h <;> rfl
+    have hcb : ∀ h scr, (f h).cb = some scr → h.cb = some scr := by
+      rcases hf with ⟨_, rfl⟩ | ⟨_, rfl⟩ <;> intro h scr hh
+      · exact hh
+      · simp [IHandler.answered] at hh
+    have hrc : ∀ h, (f h).received = true := by
+      rcases hf with ⟨_, rfl⟩ | ⟨_, rfl⟩ <;> intro h <;> rfl
+    refine ⟨?_, ?_, ?_⟩
+    · intro m h hm scr hc
+      simp only [eA, listSet_getElem?] at hm
+      split at hm
+      · obtain ⟨h0, hh0, rfl⟩ := Option.map_eq_some_iff.mp hm
+        rw [hsrc]; exact h1 m h0 hh0 scr (hcb _ _ hc)
+      · exact h1 m h hm scr hc
+    · intro R hR
+      simp only [eA] at hR ⊢
+      obtain ⟨h, hh, hs⟩ := h2 R hR
+      simp only [listSet_getElem?]
+      split
+      · exact ⟨f h, by simp [hh], by rw [hsrc]; exact hs⟩
+      · exact ⟨h, hh, hs⟩
+    · intro m h hm hr
+      simp only [eA, listSet_getElem?] at hm
+      split at hm
+      · obtain ⟨h0, hh0, rfl⟩ := Option.map_eq_some_iff.mp hm
+        rw [hrc] at hr; cases hr
+      · exact h3 m h hm hr
+
+theorem cbInv_reach {P : Prog} {c0 c : Cfg} (h0 : Started c0) (h : Reach P c0 c) : CbInv c := by
+  refine reach_inpTrans_induction ?_ (fun c c' _ hi ht => cbInv_trans hi ht) h
+  obtain ⟨e1, e2, _⟩ := started_A h0
+  refine ⟨?_, ?_, ?_⟩ <;> simp [e1, e2]
+
+/-! ### lines are read from the console in order -/
+
+/-- the lines read so far are the first lines of the console input (the empty line once it is exhausted),
+and the console holds the rest -/
+def ReadOrder (c0 c : Cfg) : Prop :=
+  readLines c.log = (List.range (readLines c.log).length).map (c0.A.stdin.getD · []) ∧
+  c.A.stdin = c0.A.stdin.drop (readLines c.log).length
+
+theorem readOrder_trans {c0 c c' : Cfg} (hi : ReadOrder c0 c) (ht : InpTrans c c') : ReadOrder c0 c' := by
+  have same : c'.A.stdin = c.A.stdin → readLines c'.log = readLines c.log → ReadOrder c0 c' := by
+    intro e1 e2; unfold ReadOrder; rw [e1, e2]; exact hi
+  cases ht with
+  | frame hf =>
+    rcases hf.reader with ⟨_, e1, e2⟩ | ⟨_, _, e1, e2⟩
+    · exact same e1 e2
+    · obtain ⟨i1, i2⟩ := hi
+      unfold ReadOrder
+      rw [e1, e2, i2]
+      refine ⟨?_, by simp [Nat.add_comm]⟩
+      simp only [List.length_append, List.length_cons, List.length_nil, List.range_succ, List.map_append,
+        List.map_cons, List.map_nil, Nat.zero_add]
+      rw [← i1]
+      congr 2
+      rw [List.getD_eq_getElem?_getD, List.headD_eq_head?_getD, List.head?_drop]
+  | screenReq scr args sk text hr _ | blockingReq scr sk text hr _ => exact same hr.stdin (by rw [hr.log])
+  | handoff s rest _ _ eA _ eL => exact same (by rw [eA]) (by rw [eL])
+  | ready n s rest f _ _ _ eA _ eL => exact same (by rw [eA]) (by rw [eL])
+
+theorem readOrder_reach {P : Prog} {c0 c : Cfg} (h0 : Started c0) (h : Reach P c0 c) : ReadOrder c0 c := by
+  refine reach_inpTrans_induction ?_ (fun c c' _ hi ht => readOrder_trans hi ht) h
+  obtain ⟨_, _, _, _, _, e6, _⟩ := started_A h0
+  simp [ReadOrder, e6, readLines]
+
 end Simpleline
